@@ -37,6 +37,8 @@ _T1 = C('T1', [P('p', REF('P')), P('m', OPT(['dict', 'str', REF('P')]), ['none']
 _AB = C('Ab', [P('a', 'int')], abstract='abc')
 _K1 = C('K1', [P('a', 'int')], ['Ab'])
 _K2 = C('K2', [P('a', 'int'), P('b', 'int')], ['Ab'])
+_ABL = C('Abl', [P('a', 'int')], abstract='abc')     # abstract, no registered subclass
+_WD2 = C('Wd2', [P('b', 'str')])
 _SH = C('Shape', [P('center', REF('V'))])
 _CI = C('Circle', [P('center', REF('V')), P('radius', 'float')], ['Shape'])
 _SQ = C('Square', [P('center', REF('V')), P('width', 'float')], ['Shape'])
@@ -93,6 +95,7 @@ MODELS = {
            'doc_type': ['union', REF('EH'), REF('Col'), REF('Shade'), ['list', REF('Shade')]]},
     'EV': {'classes': [_COL, _SHD, _US, _US2, _EA],
            'doc_type': ['union', REF('EA'), ['list', ['union', REF('EA'), REF('Shade')]]]},
+    'AL': {'classes': [_ABL, _WD2], 'doc_type': ['union', REF('Abl'), REF('Wd2'), ['list', REF('Abl')]]},
     'SV': {'classes': [_SB, _SD, _SE], 'doc_type': REF('SBase')},
     'DI': {'classes': [_TL, _PN, _BR, _MK], 'doc_type': REF('Tool')},
     'DK': {'classes': [_US, _YS, _DK], 'doc_type': REF('DK')},
@@ -125,7 +128,7 @@ KEYS = {
     'L': ['x', 'a', 'b'], 'DM': ['k', 'j'], 'DU': ['k', 'j'], 'AB': ['a', 'b'],
     'SH': ['center', 'radius', 'width', 'x'], 'UN': ['a', 'b', 'c'],
     'WD': ['n', 'when', 'where', 'zz'], 'BF': ['k'],
-    'AR': ['a', 'b', 'c'], 'UI': ['a', 'b'], 'SL': ['k'], 'SM': ['k', 'true'], 'EU': ['c', 's', 'o', 't'], 'EV': ['k', 'u', 'c', 's', 't'], 'DP': ['a', 'b', 'c', 'd'], 'DK': ['m', 'y', 'k'], 'PR': ['a', '_id', 'b'], 'DI': ['a', 'b', 'c', 'd'], 'SV': ['line', 'col', 'w'],
+    'AR': ['a', 'b', 'c'], 'UI': ['a', 'b'], 'SL': ['k'], 'SM': ['k', 'true'], 'EU': ['c', 's', 'o', 't'], 'EV': ['k', 'u', 'c', 's', 't'], 'AL': ['a', 'b'], 'DP': ['a', 'b', 'c', 'd'], 'DK': ['m', 'y', 'k'], 'PR': ['a', '_id', 'b'], 'DI': ['a', 'b', 'c', 'd'], 'SV': ['line', 'col', 'w'],
 }
 SCALS = ['1', 'x', 'true', '1.5', '~', 'red', '"1"']
 SCALS_BY = {'SV': ['1', '7', 'x', '~'], 'WD': ['1', 'seven', '2001-01-01', '~', 'a/b', '1.5'],
